@@ -22,6 +22,7 @@ package h
 
 import (
 	"fmt"
+	"os"
 	"sort"
 	"strings"
 	"testing"
@@ -42,9 +43,15 @@ type replica struct {
 	given map[int]int
 }
 
+// replRecorder builds the audit recorder of the replicas of the current run: the default drops
+// events; knob "recorder"=1 selects wasp's stdout recorder, whose session templates fail for
+// identifiers shorter than 8 characters - a recorder that returns errors (as the gRPC one does
+// while the audit service is away) must not change what is stored or broadcast.
+var replRecorder = audit.NoneRecorder
+
 func newReplica(peer uint64) *replica {
 	q := &memberlist.TransmitLimitedQueue{RetransmitMult: 3, NumNodes: func() int { return 0 }}
-	return &replica{peer: peer, bcast: q, st: distributed.NewState(peer, q, audit.NoneRecorder()), given: map[int]int{}}
+	return &replica{peer: peer, bcast: q, st: distributed.NewState(peer, q, replRecorder()), given: map[int]int{}}
 }
 
 func (r *replica) drain() [][]byte {
@@ -337,6 +344,17 @@ func (w *replWorld) applyRaw(s *Step) bool {
 
 func runRepl(t *testing.T, c *Case) *Outcome {
 	o := newOutcome()
+	if c.knob("recorder", 0) == 1 {
+		// the stdout recorder writes (fragments of) its lines to os.Stdout: keep them out of the
+		// worker's protocol stream
+		if dn, err := os.OpenFile(os.DevNull, os.O_WRONLY, 0); err == nil {
+			old := os.Stdout
+			os.Stdout = dn
+			replRecorder = audit.StdoutRecorder
+			defer func() { os.Stdout = old; dn.Close(); replRecorder = audit.NoneRecorder }()
+			o.probe("runs_with_failing_recorder")
+		}
+	}
 	n := int(c.knob("replicas", 2))
 	w := &replWorld{skew: make([]int64, n), noModel: c.Profile == "converge"}
 	for i := 0; i < n; i++ {
@@ -846,6 +864,9 @@ func genC09(r *Rand, tier, profile string) *Case {
 	c := &Case{Profile: "bcast", Knobs: map[string]int64{"replicas": 3}}
 	if r.Bool(0.4) {
 		c.Knobs["drain_every"] = int64(r.Range(2, 5)) // several changes inside one gossip interval
+	}
+	if r.Bool(0.25) {
+		c.Knobs["recorder"] = 1 // an audit recorder that returns errors
 	}
 	// replica 2 is a foreign peer whose entries are first replicated to A (0) and B (1)
 	nForeign := r.Intn(5)
